@@ -324,6 +324,13 @@ class Engine(ExprMixin, StmtMixin):
                 return [(st, VSeq(sq.len * r, lambda i: sq.elem(i / r), sq.etype))]
             if attr == "item":
                 return [(st, sq.elem(z3.IntVal(0)))]
+            if attr == "nonzero" and isinstance(sq.etype, TBool):
+                from .libtorch import seq_filter
+                r = seq_filter(st, eng, sq.len, lambda p: sq.elem(p).t, lambda p: VInt(p), INT, "nonzero")
+                r.kind = sq.kind
+                if sq.kind is not None and z3.is_int_value(sq.kind) and sq.kind.as_long() == 2:
+                    return [(st, VTuple([r]))]          # numpy: tuple of index arrays
+                return [(st, r)]
             if attr in ("long", "clone", "int", "contiguous"):
                 return [(st, sq)]
             if attr == "squeeze":
